@@ -22,12 +22,16 @@ def cells(tier, seed):
     out = []
     names = QUICK_BUILDERS if tier == "quick" else list(BUILDERS)
     shapes = [(2, ()), (2, (2,))] if tier == "quick" else [(1, ()), (2, ()), (3, ()), (2, (2,)), (2, (2, 1))]
+    for name in ("Toeplitz", "Dense", "Diag", "Kronecker", "Sum", "ConstantMul", "Root"):
+        out.append({"id": f"{name}/n2/b2x2/arith_const2", "params": {"builder": name, "n": 2, "batch": [2, 2], "group": "arith_const2"}})
     for name in names:
         b = BUILDERS[name]
         for n, batch in shapes:
             if name in ("BlockDiagDim", "TransposePermutation") and (batch != () or n > 2):
                 continue
             if "nested" in b.tags and (n > 2 or len(batch) > 1):
+                continue
+            if "fixedbatch" in b.tags and (n != 2 or batch):
                 continue
             if "eig" in b.tags and (n != 2 or batch):
                 continue
@@ -156,6 +160,13 @@ def harness(ctx):
         both("mul(2.0,op) via rmul", lambda: 2.0 * op, None, lambda: 2.0 * ref)
         return
 
+    if g == "arith_const2":
+        for tag, shp in (("(2,1,1,1)", (2, 1, 1, 1)), ("(1,2,1,1)", (1, 2, 1, 1)), ("(2,2,1,1)", (2, 2, 1, 1))):
+            c = ctx.leaf("argc" + tag.replace(",", "").replace("(", "").replace(")", ""), shp)
+            both(f"mul(op,const{tag})", lambda c=c: torch.mul(op, c), lambda c=c: op * c, lambda c=c: ref * c)
+            both(f"mul(const{tag},op)", lambda c=c: torch.mul(c, op), lambda c=c: c * op, lambda c=c: c * ref)
+            both(f"div(op,const{tag})", lambda c=c: torch.div(op, c), lambda c=c: op / c, lambda c=c: ref / c)
+        return
     if g == "arith_op":
         op2, ref2 = b(ctx, p["n"], batch, p="o2_")
         both("add(op,op2)", lambda: torch.add(op, op2), lambda: op + op2, lambda: ref + ref2)
